@@ -163,7 +163,11 @@ def route_obs(vec):
             if os.path.exists(p) and status == 0:
                 got = open(p, 'rb').read()
             else:
-                raise ValueError('cli exit %s: %s' % (status, err[:100])) if not tb and 'exception' not in str(status) else RuntimeError(str(status))
+                # a refusal is a refusal: exit status != 0 with a message, or a ValueError that escapes main() (e.g. raised by save());
+                # any other escaping exception is a different outcome
+                if (not tb and 'exception' not in str(status)) or str(status) in ('exception:ValueError', 'exception:DataOverflowError'):
+                    raise ValueError('cli exit %s: %s' % (status, err[:100]))
+                raise RuntimeError(str(status))
         else:
             raise AssertionError(route)
         o['got'] = digest(normalise(kind, got))
